@@ -281,17 +281,52 @@ pub fn check_corruptions(ai: usize, shape: &Shape, value: &Value, burst_seed: u6
         bad[k + i / 8] ^= 1 << (i % 8);
         l.eval();
         match (api.take)(shape, &bad) {
-            Ok(Err(postcard::Error::DeserializeBadCrc)) => {
+            // "is rejected": the kind of error is not part of the statement (upstream: DeserializeBadCrc)
+            Ok(Err(e)) => {
                 l.nontrivial(&(api.params.name, &bad));
                 l.class("checksum-bit-flip");
+                if e == postcard::Error::DeserializeBadCrc {
+                    l.class("checksum-bit-flip-reported-as-BadCrc");
+                }
             }
             Err(s) if s == "skip" => return Ok(()),
             other => {
                 return Err(fail(
                     "crc-corruption",
-                    format!("[{}] a bit flipped inside the checksum gave {:?}, expected Err(DeserializeBadCrc)", api.params.name, other),
+                    format!("[{}] a bit flipped inside the checksum gave {:?}, expected an error", api.params.name, other),
                     cj(api, shape, &bad),
                 ))
+            }
+        }
+    }
+    // two-position corruptions confined to the checksum: the same bit in two of its bytes, two of its bytes exchanged
+    for a in 0..n {
+        for b in (a + 1)..n {
+            let mut variants: Vec<Vec<u8>> = vec![];
+            for bit in [0u8, 3, 7] {
+                let mut bad = frame.clone();
+                bad[k + a] ^= 1 << bit;
+                bad[k + b] ^= 1 << bit;
+                variants.push(bad);
+            }
+            if frame[k + a] != frame[k + b] {
+                let mut bad = frame.clone();
+                bad.swap(k + a, k + b);
+                variants.push(bad);
+            }
+            for bad in variants {
+                l.eval();
+                match (api.take)(shape, &bad) {
+                    Ok(Err(_)) => l.class("checksum-two-byte-corruption"),
+                    Err(s) if s == "skip" => return Ok(()),
+                    other => {
+                        return Err(fail(
+                            "crc-corruption",
+                            format!("[{}] a frame whose checksum bytes {} and {} were damaged gave {:?}, expected an error", api.params.name, a, b, other),
+                            cj(api, shape, &bad),
+                        ))
+                    }
+                }
             }
         }
     }
@@ -369,7 +404,7 @@ pub fn run(ctx: &Ctx) {
     ctx.set_rule(
         "cases: generated (shape,value) x 14 catalogue algorithms (widths 8,16,32,64,82-in-128; reflected and not; non-zero \
          init/xorout) x {slice, heapless, alloc}; per frame every single-bit flip, bursts (first+last bit set, span <= width, \
-         algorithm bit order) at every payload offset (all interiors for span <= 10, sampled beyond), every checksum bit flip, \
+         algorithm bit order) at every payload offset (all interiors for span <= 10, sampled beyond), every checksum bit flip, same-bit flips in two checksum bytes and checksum byte swaps, \
          truncation at every length; messages with an empty plain encoding; heapless vectors of capacity exactly / one below / one above the frame length (to_vec_u8..u128, to_vec_crc32); arbitrary random inputs. oracle: bit-serial reference CRC from catalogue parameters; \
          converse on every accepted input (consumed bytes followed by their correct little-endian checksum, consumed == \
          reference decoder). non-trivial = corrupted frame whose plain decode keeps its length (only the CRC can reject it), or \
